@@ -142,6 +142,46 @@ def spec_validation():
             got = None if m is None else (m.group(1), m.group(3))
             if got != exp:
                 bad.append(("ipv6 regex", s, got, exp))
+    # the uri pattern as specified by specs.strings.uri_split (texts without newline): exhaustive over short strings, then sampled longer ones
+    import Pyro5.core as _core
+    upat = _core.URI.uriRegEx
+
+    def uri_split_concrete(u):
+        c = u.find(":")
+        if c < 4:
+            return None
+        proto, rest = u[:c], u[c + 1:]
+        if proto[:4].upper() != "PYRO" or not all(("a" <= ch <= "z") or ("A" <= ch <= "Z") for ch in proto):
+            return None
+        j = rest.find("@", 1)
+        if j >= 1 and j <= len(rest) - 2:
+            obj, loc = rest[:j], rest[j + 1:]
+        else:
+            obj, loc = rest, None
+        if len(obj) < 1 or any(ch.isspace() for ch in obj):
+            return None
+        return proto, obj, loc
+    samples = []
+    for ln in range(0, 6):
+        for tup in itertools.product("@: o\xa0", repeat=ln):
+            samples.append("pyro:" + "".join(tup))
+            samples.append("PYROx" + "".join(tup))
+    import random as _r
+    rr = _r.Random(5)
+    for _ in range(20000):
+        samples.append("".join(rr.choice("PYROpyrometanx:@@ .u/[]1\t\u2003é") for _ in range(rr.randrange(0, 14))))
+    for u in samples:
+        n += 1
+        m = upat.match(u)
+        got = None if m is None else (m.group("protocol"), m.group("object"), m.group("location"))
+        exp = uri_split_concrete(u)
+        if got != exp:
+            bad.append(("uri regex", u, got, exp))
+            break
+    for t in ("PYRO", "PYRONAME", "pyroName", "PyRoMeTa"):
+        n += 1
+        if t.upper().upper() != t.upper() or "PYRO".upper() != "PYRO" or "PYRONAME".upper() != "PYRONAME":
+            bad.append(("upper", t))
     for v in (0, 7, 9090, -5, 65535, 10 ** 30, -10 ** 30):
         n += 1
         if int("%d" % v) != v:
